@@ -126,6 +126,13 @@ CLAIMED = {
    "an empty one must be handed back with the identical (empty) dump on success and on failure; the migration directory's files (SHA-256) are unchanged except that migrate diff may add one file and rewrite atlas.sum.",
    "SQLite only. The in-memory dev database cannot be inspected afterwards (only the directory invariant is checked for it).",
    "4/C14"),
+ "C18": ("exploration",
+   "rapid PBT over migration histories authored by the real `migrate diff` and by hand, linted by the real CLI on a real SQLite dev database; oracle = reference model tagging each file destructive/additive (iff, with code, object and position)",
+   "Histories of 2-5 files (1-3 evolution steps each, over a small table model) are materialised as migration directories: each file either through `atlas migrate diff` (Atlas' own SQL including its new_<table> rebuild procedure) or as hand-written equivalent SQL "
+   "(DROP TABLE, ALTER TABLE DROP COLUMN, manual rebuilds that omit or keep columns, scratch tables/columns created and dropped in the same file, VIRTUAL generated columns). `atlas migrate lint --latest N --format json` is run for every window N. "
+   "For each file in the window the multiset of DS1xx diagnostics (code, object) must equal the model's: a table or non-virtual column that existed before the file and is gone after it, and nothing else; each Pos must fall inside a statement of the drop/rebuild of that table; exit status is non-zero iff the window holds a destructive file.",
+   "One step per table per file keeps 'existed before the file' unambiguous. Only the destructive analyzer's codes (DS1xx) are judged; other analyzers' diagnostics are ignored. SQLite only.",
+   "4/C18"),
 }
 PENDING_REASON = "check not built yet in this session (planned in DESIGN.md section 4; will be claimed once its quick check is green and sensitivity-tested)"
 
